@@ -312,7 +312,15 @@ fn migrate_msg(w: &[u32; WORLD_WORDS], cfg: &wire::Cfg, allow_invalid: bool) -> 
         }
         for (side, bit) in [("ask", 2u32), ("bid", 4u32)] {
             if sel & bit != 0 {
-                let (r, a): (Option<String>, Option<String>) = match pick(w[26].rotate_left(bit), 6) {
+                let current = if side == "ask" { &cfg.ask_fee } else { &cfg.bid_fee };
+                let (r, a): (Option<String>, Option<String>) = match (pick(w[26].rotate_left(bit), 8), current) {
+                    // the installed rate in another spelling, with a different account
+                    (6, Some((acc, rate))) | (7, Some((acc, rate))) => {
+                        let other = POOL.iter().find(|x| **x != acc.as_str()).unwrap().to_string();
+                        let spelled = if rate.contains('.') { format!("{}0", rate) } else { format!("{}.0", rate) };
+                        (Some(spelled), Some(other))
+                    }
+                    (k, _) => match k % 6 {
                     0 => (Some("0.03".into()), Some(POOL[5].to_string())),
                     1 => (Some(String::new()), Some(String::new())),
                     2 => (Some("0.0125".into()), Some(POOL[6].to_string())),
@@ -320,6 +328,7 @@ fn migrate_msg(w: &[u32; WORLD_WORDS], cfg: &wire::Cfg, allow_invalid: bool) -> 
                     4 if allow_invalid => (Some("abc".into()), Some(POOL[5].to_string())),
                     5 if allow_invalid => (Some("0.03".into()), Some("X".into())),
                     _ => (Some("0".into()), Some(POOL[3].to_string())),
+                    },
                 };
                 if side == "ask" {
                     ch.ask_fee_rate = r;
